@@ -30,6 +30,7 @@ func runC11(r *Report) {
 	c11R3(r)
 	c11R4(r)
 	c11R5(r)
+	c11R5b(r)
 	c11R6(r)
 	c11R7(r)
 }
@@ -607,4 +608,84 @@ func c11R6(r *Report) {
 	}
 	r.Sentinel("R6", n, 9)
 	_ = types.Typ
+}
+
+// R5 (continued): a PEX delta that has been taken out of the pending lists is sent or put back. computePex moves the
+// pending arrivals into `sent` and empties the pending departures; from its call, every path to a return accounts for
+// each of the two lists it handed out: the list is empty, the ExtendedPex carrying it was written successfully, or it is
+// put back in front of its pending list. A path that gives up in between (a congestion test made after computePex)
+// loses departures for good and records arrivals as told that never were.
+func c11R5b(r *Report) {
+	p := r.P
+	cp := p.Func("peer", "computePex")
+	pend := p.Field("peer", "pexState", "pending")
+	pd := p.Field("peer", "pexState", "pendingDel")
+	if !r.Anchor("R5", "peer.computePex", cp != nil) || !r.Anchor("R5", "peer.pexState.pending/pendingDel", pend != nil && pd != nil) {
+		return
+	}
+	calls, _ := p.callSitesOf(cp)
+	n := 0
+	for _, cs := range calls {
+		c, ok := cs.(*ssa.Call)
+		if !ok {
+			continue
+		}
+		f := c.Parent()
+		lists := []ssa.Value{extractOf(c, 0), extractOf(c, 1)}
+		if lists[0] == nil || lists[1] == nil {
+			continue
+		}
+		n++
+		r.Fn(f)
+		fields := []*types.Var{pend, pd}
+		isRet := func(i ssa.Instruction) bool { _, ok := i.(*ssa.Return); return ok }
+		// the successful write of an ExtendedPex that carries the list
+		writeOK := func(k int) func(cond ssa.Value, pol bool) bool {
+			return func(cond ssa.Value, pol bool) bool {
+				x, isNil, okn := nilFact(Guard{Cond: cond, Pol: pol})
+				if okn && isNil {
+					if wc, isC := x.(*ssa.Call); isC && isCallNamed(wc, "peer", "write") && len(wc.Call.Args) > 1 {
+						if sl := litOf(wc.Call.Args[1]); sl != nil && sl.Type == "protocol.ExtendedPex" {
+							for _, fv := range sl.Fields {
+								if fv == lists[k] {
+									return true
+								}
+							}
+						}
+					}
+				}
+				// the list is empty
+				op, a, b, okc := cmpFact(Guard{Cond: cond, Pol: pol})
+				if okc {
+					if z, okz := constInt(b); okz && z == 0 && (op == token.EQL || op == token.LEQ) && isLenOf(stripIntConv(a), lists[k]) {
+						return true
+					}
+				}
+				return false
+			}
+		}
+		restored := func(k int) func(in ssa.Instruction) bool {
+			return func(in ssa.Instruction) bool {
+				st, ok := isStoreToField(in, fields[k])
+				if !ok {
+					return false
+				}
+				ac, isCall := st.Val.(*ssa.Call)
+				if !isCall {
+					return false
+				}
+				bi, isB := ac.Call.Value.(*ssa.Builtin)
+				return isB && bi.Name() == "append" && len(ac.Call.Args) > 0 && ac.Call.Args[0] == lists[k]
+			}
+		}
+		reqs := []edgeReq{
+			{Name: "arrivals sent, restored or none", Match: writeOK(0), Instr: restored(0)},
+			{Name: "departures sent, restored or none", Match: writeOK(1), Instr: restored(1)},
+		}
+		miss, reached := pathsMissing(c, -1, isRet, nil, reqs)
+		key := fmt.Sprintf("%s/computed-delta-sent-or-restored", fname(f))
+		r.Check(reached > 0 && len(miss) == 0, "R5", key, c.Pos(), "every path after computePex sends the delta, puts it back, or had nothing to send",
+			"after computePex has taken a delta out of the pending lists a path returns without sending it or putting it back ("+strings.Join(miss, "; ")+"): a departure that was pending at that moment is never reported, and an arrival is recorded as told although the remote never heard of it (its later departure is then a drop for an unknown peer)")
+	}
+	r.Sentinel("R5.computePex", n, 1)
 }
